@@ -601,10 +601,99 @@ def untraced_oracle(ctx):
     import corr
 
     def make(rng):
+        if rng.random() < 0.12:
+            # existence tests over members that are present but null / falsy
+            k1, k2 = rng.sample(gen.KEYS, 2)
+            falsy = rng.choice([None, None, 0, False, "", [], {}])
+            doc = {"p": {k1: falsy, k2: 1}, "q": {k1: 2}, "r": {k2: falsy}, "s": [falsy, {k1: None}]}
+            inner = rng.choice([[["k", k1]], [["k", k1]], [["par"], ["k", "q"], ["k", k1]], [["k", k2]]])
+            pred = rng.choice([["has", ["p", inner], []], ["not", ["p", inner], []],
+                               ["all", [["p", inner], ["p", [["k", k2]]]]], ["any", [["p", inner], ["p", [["k", "zz"]]]]]])
+            sc = {"fam": "q", "doc": enc(doc), "path": [rng.choice([["wc"], ["gwc"], ["rec"]]), ["f", pred]],
+                  "api": rng.choice(["find_matches", "find", "get", "get_match"]), "id": 0, "nexts": "drain", "extra": 1}
+            if sc["api"] == "get":
+                sc["default"] = rng.choice([None, ["const", enc("dflt")]])
+            if sc["api"] == "get_match":
+                sc["must_match"] = rng.random() < 0.5
+            return corr.finalize_query(sc)
         sc = gen.gen_query(rng, "all")
         sc["id"] = 0
         return corr.finalize_query(sc)
     _run(ctx, "untraced", 1200, 30000, make, untraced_check)
+
+
+def event_chain_check(sc):
+    """in every event delivered to a trace callable, next_match (when present) is reached from last_match
+    by the attempted step — also in the events of an iteration that is started over with iter() after a
+    predicate raised, and of a resumed one"""
+    doc = dec(sc["doc"])
+    expr = Builder([]).steps(sc["path"])
+    events = []
+
+    def tr(t):
+        events.append((t.last_match.path_as_str, t.next_match.path_as_str if t.next_match is not None else None))
+    it = find_matches(expr, doc, trace=tr)
+    errors = 0
+    results = 0
+    for round_ in range(sc["rounds"]):
+        for _ in range(60):
+            try:
+                next(it)
+                results += 1
+            except StopIteration:
+                break
+            except TreepathException:
+                errors += 1
+                if errors > 6:
+                    break
+                if sc["after_error"] == "iter":
+                    it = iter(it)
+        it = iter(it)       # start over on the same iterator object
+    for i, (last, nxt) in enumerate(events):
+        if nxt is not None and not nxt.startswith(last):
+            return f"event {i}: next_match {nxt} is not reached from last_match {last}", True
+    return None, errors > 0 and results > 0
+
+
+def event_chain_oracle(ctx):
+    def make(rng):
+        sc = gen.gen_query(rng, "filter", pred_profile="custom", api="find_matches", with_src=False)
+        return {"doc": sc["doc"], "path": sc["path"], "rounds": rng.choice([1, 2]), "after_error": rng.choice(["iter", "resume"])}
+    _run(ctx, "event_chain", 600, 15000, make, event_chain_check)
+
+
+def resume_after_loop_check(sc):
+    """an iterator whose next() ran out of its action budget on a long (finite) scan is still an iterator:
+    further next() calls raise documented errors or deliver what the search still has to deliver"""
+    n = sc["n"]
+    doc = [{"y": i} for i in range(n)]
+    doc.append({"x": "needle"})
+    if sc["src"] == "match":
+        doc = {"rows": doc}
+        it = find(Builder([]).steps(sc["path"]), get_match(path.rows, doc))
+    else:
+        it = find(Builder([]).steps(sc["path"]), doc)
+    got, loops = [], 0
+    for _ in range(8):
+        try:
+            got.append(next(it))
+        except StopIteration:
+            break
+        except InfiniteLoopDetected:
+            loops += 1
+        except TreepathException as e:
+            return f"after {loops} InfiniteLoopDetected: {type(e).__name__}", True
+        except Exception as e:  # noqa
+            return f"after {loops} InfiniteLoopDetected the next next() raised a bare {type(e).__name__}: {e}", True
+    if got != ["needle"]:
+        return f"a scan over {n} elements with {loops} InfiniteLoopDetected in between delivered {got!r}", True
+    return None, loops > 0
+
+
+def resume_after_loop_oracle(ctx):
+    cases = [{"n": 400000, "path": [["iwc"], ["k", "x"]], "src": "doc"}, {"n": 350000, "path": [["gwc"], ["k", "x"]], "src": "match"}]
+    it = iter(cases)
+    _run(ctx, "resume_after_loop", len(cases), len(cases), lambda rng: next(it), resume_after_loop_check)
 
 
 DOCUMENTED_ATTRS = {"wc", "wildcard", "gwc", "generic_wildcard", "rec", "recursive", "parent", "shape",
@@ -1031,8 +1120,19 @@ def deep_check(sc):
         up = get(path.parent.zero, get_match(path.bottom, leafm))
         if up != 0:
             return "a parent step from a deep match does not climb", True
+        # the same with a trace callable and a has-family filter evaluated at every level
+        from treepath import has
+        seen = [0]
+
+        def count(_t):
+            seen[0] += 1
+        tv = list(itertools.islice(find(path.rec[has(path.bottom)].zero, doc, trace=count), 3))
+        if tv != [0]:
+            return f"traced find(path.rec[has(path.bottom)].zero) on a document of depth {depth} yields {tv!r}", True
     except RecursionError:
         return f"RecursionError on a document of depth {depth} ({kind})", True
+    except TreepathException as e:
+        return f"{type(e).__name__} on a document of depth {depth} ({kind}): {exc_chain(e)}", True
     return None, True
 
 
